@@ -1,6 +1,18 @@
 (* C13 driver: one case per line
      <id> <max> <off> <contents-hex> <op> <args> ... 
-   prints "M <id> tok..." (mechanism model) and "S <id> tok..." (specification). *)
+   prints "M <id> tok..." (mechanism model) and "S <id> tok..." (specification).
+   Three kinds of cases (see harness/c13_cxx.cpp):
+     - C operations and io::queue methods (io...) on one queue: qrun / srun
+     - raw encode_queue (first operation starts with 'e'): erun / esrun
+     - xround: a message through encode_queue(COBS) -> decode_queue(COBS).  No model exists
+       for this layer (the codec belongs to C01/C02): M and S are the specification only,
+       "the message comes out as it went in, both rings end up empty". *)
+let fill = n_of_int 0xee
+let nat s = nat_of_int (int_of_string s)
+let rec chunks d part cnt =
+  if cnt <= 0 then [] else
+  let rec take k l = if k = 0 then ([], l) else match l with [] -> ([], []) | x :: r -> let (a, b) = take (k-1) r in (x :: a, b) in
+  let (a, b) = take part d in a :: chunks b part (cnt - 1)
 let rec parse_ops toks = match toks with
   | [] -> []
   | "push" :: h :: r -> OpPush (bytes_of_hex h) :: parse_ops r
@@ -16,6 +28,31 @@ let rec parse_ops toks = match toks with
   | "prepare" :: n :: r -> OpPrepare (nat_of_int (int_of_string n), n_of_int 0xee) :: parse_ops r
   | "find" :: e :: k :: r -> OpFind (nat_of_int (int_of_string e), n_of_int (int_of_string k)) :: parse_ops r
   | "string" :: r -> OpString :: parse_ops r
+  | "ioprepare" :: n :: r -> OpIoPrepare (nat n, fill) :: parse_ops r
+  | "iopush" :: h :: r -> OpIoPush (bytes_of_hex h, fill) :: parse_ops r
+  | "iopushz" :: n :: r -> OpIoPush (List.init (int_of_string n) (fun _ -> N0), fill) :: parse_ops r
+  | "iounshift" :: h :: r -> OpIoUnshift (bytes_of_hex h, fill) :: parse_ops r
+  | "iounshiftz" :: n :: r -> OpIoUnshift (List.init (int_of_string n) (fun _ -> N0), fill) :: parse_ops r
+  | "iopop" :: n :: d :: r -> OpIoPop (nat n, d = "1") :: parse_ops r
+  | "ioshift" :: n :: d :: r -> OpIoShift (nat n, d = "1") :: parse_ops r
+  | "iowrite" :: c :: p :: h :: r ->
+    OpIoWrite (nat p, chunks (bytes_of_hex h) (int_of_string p) (int_of_string c), fill) :: parse_ops r
+  | "ioread" :: c :: p :: r -> OpIoRead (nat c, nat p) :: parse_ops r
+  | "iopeek" :: n :: r -> OpIoPeek (nat n) :: parse_ops r
+  | "ionew" :: n :: r -> OpIoNew (nat n, fill) :: parse_ops r
+  | t :: _ -> failwith ("bad op " ^ t)
+
+let rec parse_eops toks = match toks with
+  | [] -> []
+  | "epush" :: h :: r -> EPush (bytes_of_hex h) :: parse_eops r
+  | "efin" :: r -> EPush [] :: parse_eops r
+  | "erev" :: r -> ERevert :: parse_eops r
+  | "etrim" :: n :: r -> ETrim (nat n) :: parse_eops r
+  | t :: _ -> failwith ("bad op " ^ t)
+
+let rec parse_rounds toks = match toks with
+  | [] -> []
+  | "xround" :: h :: r -> h :: parse_rounds r
   | t :: _ -> failwith ("bad op " ^ t)
 
 let show_out o = match o with
@@ -23,10 +60,13 @@ let show_out o = match o with
   | OBytes d -> "B:" ^ hex_of_bytes d
   | OPos None -> "P:-"
   | OPos (Some k) -> "P:" ^ string_of_int (int_of_nat k)
+  | OCount (k, d) -> "N:" ^ string_of_int (int_of_nat k) ^ ":" ^ hex_of_bytes d
   | ORefused _ -> "R"
   | OFault -> "F"
 
 let show ((o, c), m) = show_out o ^ "|" ^ hex_of_bytes c ^ "|" ^ string_of_int (int_of_nat m)
+let eshow ((((o, c), m), dn), sc) =
+  show ((o, c), m) ^ "|" ^ string_of_int (int_of_nat dn) ^ "," ^ string_of_int (int_of_nat sc)
 
 let () =
   let ic = open_in Sys.argv.(1) in
@@ -39,7 +79,18 @@ let () =
       Array.iteri (fun i b -> buf.((off + i) mod mx) <- b) c;
       let q = { qbuf = Array.to_list buf; qlen = nat_of_int (Array.length c);
                 qmax = nat_of_int mx; qoff = nat_of_int off } in
-      let ops = parse_ops ops in
-      Printf.printf "M %s %s\n" id (String.concat " " (List.map show (qrun q ops)));
-      Printf.printf "S %s %s\n" id (String.concat " " (List.map show (srun q (abs q) ops)))
+      (match ops with
+       | "xround" :: _ ->
+         let l = String.concat " " (List.map (fun h -> "B:" ^ h ^ "|0|0") (parse_rounds ops)) in
+         Printf.printf "M %s %s\n" id l;
+         Printf.printf "S %s %s\n" id l
+       | o1 :: _ when o1.[0] = 'e' ->
+         let e = { ering = q; edone = q.qlen; escr = O } in
+         let ops = parse_eops ops in
+         Printf.printf "M %s %s\n" id (String.concat " " (List.map eshow (erun e ops)));
+         Printf.printf "S %s %s\n" id (String.concat " " (List.map eshow (esrun e (eabs e) ops)))
+       | _ ->
+         let ops = parse_ops ops in
+         Printf.printf "M %s %s\n" id (String.concat " " (List.map show (qrun q ops)));
+         Printf.printf "S %s %s\n" id (String.concat " " (List.map show (srun q (abs q) ops))))
     | _ -> ()) (read_lines ic)
